@@ -312,6 +312,18 @@ pub fn check_compose_f64(rep: &mut Rep, sign: i8, f: [f64; 7]) {
         };
     }
     let want = acc.map(|a| if sign < 0 { clamp(-a) } else { a });
+    // alternative reading when a partial sum leaves the range: the (clamped) terms are summed exactly and
+    // saturated once at the end - the statement does not fix where the saturation of a sum of fields happens
+    let want_alt: Option<i128> = {
+        let mut tot: Option<i128> = Some(0);
+        for i in 0..7 {
+            tot = match (tot, model_in(f[i], us[i])) {
+                (Some(a), Some(t)) => Some(a + t),
+                _ => None,
+            };
+        }
+        tot.map(|a| if sign < 0 { clamp(-clamp(a)) } else { clamp(a) })
+    };
     rep.class("compose_f64");
     rep.sample("compose_f64", || format!("compose_f64({sign},{:?}) => want {:?}", f, want));
     match guard(|| Duration::compose_f64(sign, f[0], f[1], f[2], f[3], f[4], f[5], f[6])) {
@@ -326,7 +338,8 @@ pub fn check_compose_f64(rep: &mut Rep, sign: i8, f: [f64; 7]) {
                     p.is_finite() && p.fract() == 0.0 && p.abs() < 9007199254740992.0
                 });
                 let tol: i128 = if all_exact { 0 } else { 7 + (8.0 * flt::ulp(w as f64)).ceil() as i128 };
-                if (count_d(g) - w).abs() > tol || !is_canonical(g.to_parts()) {
+                let alt_ok = want_alt.map(|a| (count_d(g) - a).abs() <= tol).unwrap_or(false);
+                if ((count_d(g) - w).abs() > tol && !alt_ok) || !is_canonical(g.to_parts()) {
                     rep.fail("compose_f64/value", None, || format!("compose_f64({sign},{:?}) = {} want count {} +- {}", f, fmt_parts(g.to_parts()), w, tol));
                 }
             }
